@@ -13,7 +13,8 @@ Menu == <<D("N", <<"5">>),
           F("K3", <<"a", "b", "c">>, <<"(", "a", "+", "b", "*", "c", ")">>),
           D("xx", <<"3">>),
           F("P", <<"x">>, <<"(", "x", "+", "px", "+", "x1", ")">>),
-          F("Q2", <<"N1", "y">>, <<"(", "N1", "+", "y", "+", "N", ")">>)>>
+          F("Q2", <<"N1", "y">>, <<"(", "N1", "+", "y", "+", "N", ")">>),
+          D("V", <<"(", "vq", ")">>)>>
 Uses == {<<"N">>, <<"N", "+", "N">>, <<"(", "N", ")">>, <<"-", "N">>, <<"N1">>, <<"aN">>, <<"_N">>, <<"N_">>, <<"\"N\"">>, <<"\"F(1)\"", "+", "N">>,
          <<"W">>, <<"W", "*", "W">>, <<"F", "(", "N", ")">>, <<"F", "(", "1", ")">>, <<"F", "(", "F", "(", "1", ")", ")">>, <<"F">>, <<"F", "+", "1">>,
          <<"G", "(", "1", ",", "2", ")">>, <<"G", "(", "(", "3", ")", ",", "(", "4", ")", ")">>, <<"G", "(", "F", "(", "1", ")", ",", "N", ")">>,
@@ -22,7 +23,8 @@ Uses == {<<"N">>, <<"N", "+", "N">>, <<"(", "N", ")">>, <<"-", "N">>, <<"N1">>, 
          <<"F", "(", "(", "(", "(", "(", "1", ")", ")", ")", ")", ")">>, <<"F", "(", "(", "1", "+", "2", ")", "*", "(", "3", ")", ")">>,
          <<"H", "(", ")">>, <<"H", "(", ")", "+", "H", "(", ")">>, <<"K3", "(", "1", ",", "2", ",", "3", ")">>, <<"K3", "(", "N", ",", "F", "(", "2", ")", ",", "W", ")">>,
          <<"xx">>, <<"axx">>, <<"xx1">>, <<"x">>, <<"xx", "+", "xxx">>, <<"P", "(", "2", ")">>, <<"P", "(", "N", ")">>, <<"Q2", "(", "1", ",", "2", ")">>,
-         <<"F", "(", "1", ")", "+", "G", "(", "2", ",", "3", ")">>, <<"N", "F", "(", "N", ")", "N">>, <<"GG", "(", "1", ",", "2", ")">>, <<"F1", "(", "1", ")">>}
+         <<"F", "(", "1", ")", "+", "G", "(", "2", ",", "3", ")">>, <<"N", "F", "(", "N", ")", "N">>, <<"GG", "(", "1", ",", "2", ")">>, <<"F1", "(", "1", ")">>,
+         <<"V">>, <<"V", "+", "V">>, <<"V", "(", "2", ")">>}
 Tails == {<<>>, <<[k |-> "undef", name |-> "N"]>>, <<[k |-> "undef", name |-> "F"]>>,
           <<[k |-> "undef", name |-> "N"], D("N", <<"9">>)>>, <<[k |-> "undef", name |-> "xx"]>>,
           <<[k |-> "undef", name |-> "F"], F("F", <<"z">>, <<"(", "z", "+", "1", ")">>)>>}
@@ -43,6 +45,14 @@ WellFormed == /\ \A i \in 1..Len(tail) : tail[i].k = "undef" => tail[i].name \in
               /\ (origin = "cmdline" => 1 \in sel)
               /\ (filler # 0 => Cardinality(sel) <= 3)
               /\ Cardinality(sel) >= 1 /\ Cardinality(sel) <= 4
+\* -D options seen through the whole compiler: the statement `stmt` compiled with the option must give the code of the
+\* statement MacroRef expands it to, compiled without any macro (driver: program "char r, q; void main() { <stmt>; }")
+DOpts == {[opt |-> <<"N">>, stmt |-> <<"r", "=", "N">>], [opt |-> <<"N", "=", "5">>, stmt |-> <<"r", "=", "N", "+", "N1">>],
+          [opt |-> <<"N", "=", "r", "=", "3">>, stmt |-> <<"N">>], [opt |-> <<"N", "=", "r", "==", "3">>, stmt |-> <<"q", "=", "N">>],
+          [opt |-> <<"N", "=", "q", "=", "r", "==", "N1">>, stmt |-> <<"N">>], [opt |-> <<"N", "=", "(", "1", "+", "2", ")">>, stmt |-> <<"r", "=", "N", "*", "2">>],
+          [opt |-> <<"N1", "=", "2">>, stmt |-> <<"r", "=", "N1", "+", "q">>], [opt |-> <<"N", "=", "N1">>, stmt |-> <<"r", "=", "N">>]}
+EmitDOpts == \A c \in DOpts : PrintT("DOPT " \o ToJson([opt |-> c.opt, stmt |-> c.stmt, expected |-> Expand(c.stmt, Active(<<DOptDefine(c.opt)>>, 1, <<>>), 50)]))
+ASSUME EmitDOpts
 Emit == WellFormed => PrintT("CASE " \o ToJson([dirs |-> Dirs, use |-> use, origin |-> origin, filler |-> filler,
                                                  expected |-> Expand(use, Active(Dirs, 1, <<>>), 50)]))
 =============================================================================
